@@ -3773,7 +3773,12 @@ impl SctpInner {
         // Mark all chunks of abandoned messages in one pass.
         if !abandon_set.is_empty() {
             for record in sent_queue.values_mut() {
-                if abandon_set.contains(&(record.stream_id, record.ssn)) {
+                // Only chunks sent under a partial-reliability policy can be abandoned. DCEP
+                // messages travel unordered with SSN 0 on the channel's own stream and are
+                // reliable: they share (stream, ssn) with the channel's first ordered message
+                // and must not be dropped with it, or the peer never learns of the channel.
+                let partially_reliable = record.max_retransmits.is_some() || record.expiry.is_some();
+                if partially_reliable && abandon_set.contains(&(record.stream_id, record.ssn)) {
                     record.abandoned = true;
                     record.needs_retransmit = false;
                     if record.in_flight {
